@@ -1,18 +1,176 @@
-"""C01 - grounded = least fixpoint."""
-from mirlib import facts
-from rules import shared
+"""C01 - grounded interpretation = least fixpoint on every back-end."""
+from mirlib import facts, flow, ir, symx
+from rules import kernel, semantics, shared
 
-EXPLANATION = """Decided: S.T-term."""
-NOT_DECIDED = ""
+EXPLANATION = """
+Decided (the necessary skeleton of the least-fixpoint computation, all paths): S.T-term (truth tables of the
+information predicates over the term-class domain), S.F-full for Adf::grounded_internal and for the biodivine
+restriction list var_list (every decided statement is substituted with its own value under its own index, undecided
+ones are left alone), C01.P-progress (both fixpoint loops have a single exit which is taken iff no acceptance
+condition became a truth value in the round: affine counter / flag argument), C01.F-io (grounded starts from a copy
+of the acceptance conditions, only undecided entries are re-restricted, the loop result is returned - biodivine:
+mapped through the From<&Bdd> table), C01.A-hybrid (hybrid_step feeds grounded_internal(self.ac) and
+hybrid_step_opt(false) feeds self.ac into the bridge, together with the same VarContainer)."""
+NOT_DECIDED = ("That the result equals the least fixpoint as a function of the ADF additionally needs the kernel obligations (C06/C07) and an "
+               "induction over rounds argued on paper; equality across variable orders is not decided.")
+TECHNIQUE = "static analysis: finite-domain closure tables, loop-cut path summaries with an affine progress counter, provenance of loop inputs/outputs"
 
 
 def configs(tier):
     return facts.LIB_ALL if tier == "thorough" else facts.LIB_QUICK
 
 
+def F_io(ctx, lib):
+    rule = "C01.F-io"
+    ctx.rule(rule, "Adf::grounded passes a copy of self.ac to grounded_internal and returns its result unchanged; grounded_internal copies its "
+                   "input, re-restricts exactly the entries that are not truth values (filter table) and returns the loop vector; the biodivine "
+                   "grounded maps the loop result through From<&Bdd> for Term")
+    # native grounded
+    try:
+        b = lib.one("adf::Adf::grounded")
+        d = flow.Defs(b)
+        ret = d.expr_local(0)
+        ok = (ret[0] == "call" and flow.sg(ret[1]).endswith("Adf::grounded_internal") and ret[3][0] == ("param", 1)
+              and strip_copy(ret[3][1]) == ("field", ("param", 1), "ac"))
+        ctx.ob(rule, "native.grounded", ok, where=b.where(), expected="grounded_internal(self, &self.ac.clone())", found=flow.show(ret)[:200])
+    except LookupError as e:
+        ctx.lost(rule, "Adf::grounded", str(e))
+    # filters of the loops
+    for fname_, kind in (("adf::Adf::grounded_internal", "native"), ("adfbiodivine::Adf::grounded_internal", "bio")):
+        try:
+            b = lib.one(fname_)
+        except LookupError as e:
+            ctx.lost(rule, fname_, str(e))
+            continue
+        roles, d = flow.closure_roles(b)
+        ret = d.expr_local(0)
+        base = strip_copy(ret)
+        ctx.ob(rule, kind + ".returns-loop-vector", base == ("param", 2), where=b.where(), expected="the working copy of the input interpretation", found=flow.show(ret)[:160])
+        n = 0
+        eng = ctx.engine([lib], intrinsics=shared.BIO_INTRINSICS)
+        for r in roles.values():
+            if r.adaptor != "filter":
+                continue
+            src, steps = r.receiver_chain()
+            if [s_[0] for s_ in steps] != ["iter_mut"]:
+                continue
+            n += 1
+            ctx.ob(rule, kind + ".iterates-working-copy", strip_copy(src) == ("param", 2), where=b.where(), expected="new_interpretation.iter_mut().filter(..)", found=flow.show(src)[:120])
+            cb = lib.body(r.closure_def)
+            for c in shared.CLASSES:
+                st = symx.State()
+                env = eng.closure_env(st, cb, [])
+                elem = shared.bio(c) if kind == "bio" else shared.term(c)
+                item = shared.ref_to(st, shared.ref_to(st, elem))
+                paths = eng.summarise(cb, [env, item], st)
+                got = set(p.ret if p.end == "return" else ("end", p.end) for p in paths)
+                ctx.ob(rule, "%s.filter[%s]" % (kind, c), got == {symx.vbool(c == "U")}, where=cb.where(), expected="re-restrict iff undecided",
+                       found=sorted(symx.show(x) for x in got))
+        ctx.floor(rule, kind + " undecided-filter", n, 1)
+    # biodivine grounded
+    try:
+        b = lib.one("adfbiodivine::Adf::grounded")
+        roles, d = flow.closure_roles(b)
+        ret = d.expr_local(0)
+        src, steps = flow.chain_of(ret)
+        names = [s_[0] for s_ in steps]
+        ok = (names == ["iter", "map", "collect"] and src[0] == "call" and flow.sg(src[1]).endswith("adfbiodivine::Adf::grounded_internal")
+              and strip_copy(src[3][1]) == ("field", ("param", 1), "ac"))
+        ctx.ob(rule, "bio.grounded", ok, where=b.where(), expected="grounded_internal(&self.ac.clone()).iter().map(Into::into).collect()", found=flow.show(ret)[:220])
+        if ok:
+            cb = lib.body(steps[1][1][0][1])
+            conv = [ir.callee_path(ci) for _, t, ci in cb.calls()]
+            okc = len(conv) == 1 and conv[0] is not None and "Into" in conv[0]
+            tgt = [ci.get("impl", {}).get("args") for _, t, ci in cb.calls()]
+            okt = bool(tgt) and tgt[0] and len(tgt[0]) == 2 and ir.ty_str(tgt[0][1]).endswith("Term") and "biodivine_lib_bdd::Bdd" in ir.ty_str(tgt[0][0])
+            ctx.ob(rule, "bio.grounded-map", okc and okt, where=cb.where(), expected="<&Bdd as Into<Term>>::into (table: S.T-term From<&Bdd>)", found=conv)
+    except LookupError as e:
+        ctx.lost(rule, "adfbiodivine::Adf::grounded", str(e))
+
+
+def strip_copy(e):
+    while e is not None and e[0] == "call" and flow.last(e[2]) in ("clone", "into", "to_vec", "to_owned", "from", "deref", "as_slice") and e[3]:
+        e = e[3][0]
+    return e
+
+
+def A_hybrid(ctx, lib):
+    rule = "C01.A-hybrid"
+    ctx.rule(rule, "hybrid_step = from_biodivine_vector(self.var_container(), &self.grounded_internal(self.ac())); hybrid_step_opt(true) = hybrid_step, "
+                   "hybrid_step_opt(false) = from_biodivine_vector(self.var_container(), self.ac()); from_biodivine = the same with the adf's own parts")
+    def is_vc(e):
+        e = strip_copy(e)
+        return (e[0] == "call" and flow.last(e[2]) == "var_container" and e[3][0] == ("param", 1)) or e == ("field", ("param", 1), "ordering")
+
+    def is_ac(e):
+        e = strip_copy(e)
+        return (e[0] == "call" and flow.last(e[2]) == "ac" and e[3][0] == ("param", 1)) or e == ("field", ("param", 1), "ac")
+    try:
+        b = lib.one("adfbiodivine::Adf::hybrid_step")
+        d = flow.Defs(b)
+        ret = d.expr_local(0)
+        ok = (ret[0] == "call" and flow.sg(ret[1]).endswith("adf::Adf::from_biodivine_vector") and is_vc(ret[3][0])
+              and strip_copy(ret[3][1])[0] == "call" and flow.sg(strip_copy(ret[3][1])[1]).endswith("adfbiodivine::Adf::grounded_internal")
+              and is_ac(strip_copy(ret[3][1])[3][1]))
+        ctx.ob(rule, "hybrid_step", ok, where=b.where(), expected="from_biodivine_vector(var_container, grounded_internal(ac))", found=flow.show(ret)[:220])
+    except LookupError as e:
+        ctx.lost(rule, "hybrid_step", str(e))
+    try:
+        b = lib.one("adfbiodivine::Adf::hybrid_step_opt")
+        eng = ctx.engine([lib], no_inline={"adf_bdd::adfbiodivine::Adf::hybrid_step", "adf_bdd::adf::Adf::from_biodivine_vector",
+                                           "adf_bdd::adfbiodivine::Adf::grounded_internal"})
+        for flag in (True, False):
+            st = symx.State()
+            SELF = shared.ref_to(st, ("sym", "self"))
+            paths = eng.summarise(b, [SELF, symx.vbool(flag)], st)
+            ok = len(paths) == 1 and paths[0].end == "return"
+            found = [symx.show(p.ret)[:200] if p.ret else p.end for p in paths]
+            if ok:
+                r = kernel.deep_strip(paths[0].ret)
+                if flag:
+                    ok = kernel.is_call(r, "Adf::hybrid_step")
+                else:
+                    ok = (kernel.is_call(r, "Adf::from_biodivine_vector") and symx.contains(r[2][0], lambda n: n[0] == "field" and n[2] == "ordering")
+                          and symx.contains(r[2][1], lambda n: n[0] == "field" and n[2] == "ac")
+                          and not symx.contains(r, lambda n: n[0] == "app" and flow.last(n[1]) == "grounded_internal"))
+            ctx.ob(rule, "hybrid_step_opt[%s]" % flag, ok, where=b.where(), expected="hybrid_step()" if flag else "from_biodivine_vector(var_container, ac)", found=found)
+    except LookupError as e:
+        ctx.lost(rule, "hybrid_step_opt", str(e))
+    # the accessors
+    for name, field in (("var_container", "ordering"), ("ac", "ac")):
+        try:
+            b = lib.one("adfbiodivine::Adf::" + name)
+            d = flow.Defs(b)
+            ret = strip_copy(d.expr_local(0))
+            ctx.ob(rule, "accessor." + name, ret == ("field", ("param", 1), field), where=b.where(), expected="&self." + field, found=flow.show(ret))
+        except LookupError as e:
+            ctx.lost(rule, name, str(e))
+    try:
+        b = lib.one("adf::Adf::from_biodivine")
+        d = flow.Defs(b)
+        ret = d.expr_local(0)
+        ok = (ret[0] == "call" and flow.sg(ret[1]).endswith("adf::Adf::from_biodivine_vector")
+              and ret[3][0][0] == "call" and flow.last(ret[3][0][2]) == "var_container" and ret[3][0][3][0] == ("param", 1)
+              and ret[3][1][0] == "call" and flow.last(ret[3][1][2]) == "ac" and ret[3][1][3][0] == ("param", 1))
+        ctx.ob(rule, "from_biodivine", ok, where=b.where(), expected="from_biodivine_vector(bio.var_container(), bio.ac())", found=flow.show(ret)[:200])
+    except LookupError as e:
+        ctx.lost(rule, "from_biodivine", str(e))
+
+
 def check(ctx):
     for cfg in configs(ctx.tier):
         ctx.cfg = cfg.name
         lib = ctx.load(cfg)
-        n = shared.S_T_term(ctx, lib)
-        ctx.floor("S.T-term", "functions", n, 8)
+        # attribution: only the predicates the grounded computation reads
+        n = shared.S_T_term(ctx, lib, which={"is_truth_value", "is_true", "bio_is_truth_value", "from_bio"})
+        ctx.floor("S.T-term", "functions", n, 4)
+        rule = "S.F-full"
+        ctx.rule(rule, "restriction idiom FULL at the grounded sites: class(entry i) B -> restrict(acc, Var(i), false); T -> restrict(acc, Var(i), true); "
+                       "U -> acc (native fold closure table; biodivine var_list filter/map tables), i = enumerate index of the tested entry")
+        k, seen = semantics.F_restrict_native(ctx, lib, rule, only={"Adf::grounded_internal"})
+        ctx.floor(rule, "native grounded restriction sites", k, 1)
+        kb = semantics.bio_list_tables(ctx, lib, rule)
+        ctx.floor(rule, "biodivine list constructions", kb, 4)
+        semantics.P_progress(ctx, lib, "C01.P-progress")
+        F_io(ctx, lib)
+        A_hybrid(ctx, lib)
